@@ -163,6 +163,11 @@ def run(ctx):
     obs, exprs, specs = [], [], []
     for i in range(N):
         spec = tmodel.gen_spec(rng)
+        if i % 9 == 4:
+            # every run: very extended atmospheres (top boundary beyond ~0.4 planetary radii), both path methods
+            spec = tmodel.gen_spec(rng, extent=(0.45, 0.6))
+            spec['new_path'] = (i % 18 == 4)
+            ctx.count('extended atmosphere')
         try:
             model = tmodel.build(spec)
             o = observe(model)
